@@ -87,6 +87,23 @@ CHECKS.update({
                   "rests on the (P) oracle; insert_indents=True, multi-line lambdas, _reload, NULL_FORMULA outside theorems; D10, D30-D36 recorded findings avoided",
              technique="Coq Gallina model + inductive proofs + vm_compute correspondence on generated structured texts + differential oracle", design="6/C20"),
 })
+CHECKS.update({
+ "C13": dict(text="Coq proof that in the Alive model every deletion route (del of a cells or space tree, loss of a base member or base relation, ItemSpace discard) leaves everything inside the deleted "
+                  "object and every derived copy without a definer dead, with no container, base list, value or dependency listing mentioning a dead object, and that only the deleted-object error "
+                  "answers a dead handle, for all histories; tied to /repo on every run by replaying generated histories and comparing all handles, containers, values and the trace graph inside "
+                  "Coq, plus an implementation-only oracle including an edit-only replay differential.",
+             note="trusted: hand-written Alive/Model.v, harness drivers/alive.py, Alive/Check.v; not modelled: C3 order, formulas (function of the name), space-level references, renaming, input values, "
+                  "uncached cells (witnesses/corpus cases are (P)-only); generator avoids triggers of D14, C13a, C13c, C13e, D3; partial: alive_untouched for derived cells and remove_bases",
+             technique="Coq invariant induction over fold_left step + vm_compute correspondence + implementation oracle (edit-only replay)", design="6/C13"),
+ "C19": dict(text="Coq proof over a Gallina model of the model registry (dict, per-model names, the two AutoNamer counters, new/rename/_rename_samename/close/read/cur_model) that for all operation "
+                  "sequences the registry maps unique valid names to the model of that name, no operation but close removes a model, a clashing model keeps its identity under <name>_BAKn, close "
+                  "removes exactly one model and rejected operations change nothing; tied to /repo on every run by comparing the registry, every handle's name and the current model after each "
+                  "operation of generated histories.",
+             note="trusted: Coq kernel + vm_compute; harness (drivers/registry.py, props/C19.py, identity tokens via `is`); modelled not verified: ASCII is_valid_name, read_model = new_model()+rename(rename_old), "
+                  "counters probed via public API; isolation of model contents only by before/after differential on the implementation (no theorem); findings stale_handle, read_missing, "
+                  "read_late_failure avoided and replayed",
+             technique="Coq induction over fold_left step + fuelled get_next with pigeonhole bound + vm_compute correspondence + isolation differential", design="6/C19"),
+})
 EXPLORE = {}
 PENDING = {}
 for i in range(1, 21):
